@@ -26,6 +26,13 @@ void *g_al_block;
 uint8_t g_rx_octet;
 int g_dec_rc, g_dec_id;
 size_t g_dec_len;
+#ifdef REGP_USE_WIRE_H
+const uint16_t *g_crcT;   /* ghost checksum trace of C16, see RPP_DEC_FRAME_CAP */
+#define RPP_MAKE_TRACE() \
+  uint16_t *trace_ = malloc((REGP_PF_MAX + 1u) * sizeof(uint16_t)); ASSUME(trace_ != NULL); g_crcT = trace_;
+#else
+#define RPP_MAKE_TRACE()
+#endif
 
 /* hooks for case splits of a target (defines in targets/*.json) */
 #ifndef RPP_PIN_ALLOC
@@ -422,6 +429,7 @@ void h_regp_recv(void)
   RPP_MAKE_P()
   RPP_COUNTERS()
   g_al_allocs = 0; g_al_live = 0; g_al_frees = 0;
+  RPP_MAKE_TRACE()
   RPMaybeFrame mf;
   regp_recv(&p, &mf);
   VERIF_CANARY();
@@ -435,6 +443,7 @@ void h_lemma_recv_process(void)
   RPP_MAKE_P()
   RPP_COUNTERS()
   g_al_allocs = 0; g_al_live = 0; g_al_frees = 0;
+  RPP_MAKE_TRACE()
   RPMaybeFrame mf;
   int rc = regp_recv(&p, &mf);
   if (g_dec_rc >= 0) {
@@ -443,6 +452,22 @@ void h_lemma_recv_process(void)
       g_blk_used = sizeof(RPFrame) + (RPP_ID_PARSED(mf.error.id) ? mf.frame->raw.size : 0u);
     }
     CHECK(RPP_FRAME_WF(&p, &mf), "a frame returned by regp_recv satisfies the precondition of regp_process");
+    /* CBMC resolves a dereference through its points-to sets, which an
+     * assumed equality (the replaced contract of regp_recv) does not feed: the
+     * two pointers stored inside the block are re-stored from the block's base
+     * -- a no-op by the assertion just before -- so that reads through them
+     * reach the block. */
+    if (mf.frame != NULL && RPP_ID_PARSED(mf.error.id)) {
+      const size_t hl = RPP_HLEN(mf.frame);
+      CHECK(RPP_SAME_BLOCK(mf.frame->payload.data, mf.frame) && RPP_SAME_BLOCK(mf.frame->raw.memory, mf.frame)
+            && RPP_PDIFF(mf.frame->raw.memory, mf.frame) == sizeof(RPFrame) && hl <= 16u,
+            "pointers of a parsed frame point into its block");
+      mf.frame->raw.memory = (unsigned char *)mf.frame + sizeof(RPFrame);
+      mf.frame->payload.data = (unsigned char *)mf.frame + sizeof(RPFrame) + hl;
+    }
+    /* name the payload octet at the ghost index, as the contract of regp_process does */
+    if (RPP_VALID(&p, &mf) && !RPP_IS_READ(&mf) && g_k < RPP_BS(&mf) * RPP_WS(&p))
+      g_rx_octet = ((const uint8_t *)mf.frame->payload.data)[g_k];
     regp_process(&p, &mf);
     regp_free(&p, mf.frame);
     CHECK(g_al_live == 0 && g_al_frees <= g_al_allocs && g_al_allocs <= 1,
